@@ -236,34 +236,34 @@ ADDENDA = {
            "buffers re-used) and `forms` (the same whole numbers as int8..int64 / uint8..uint16 / float32 / Fortran / strided arrays and lists, lattice spacings to 20000, "
            "shifted coordinates - judged at float64 accuracy whatever the input type); n = 1 data sets; log-alpha to 30.",
     "C03": "Added later: exchanges through replace_last + probs[-1] (points possibly outside the receiver's bounds, the caller re-using the array it handed over), save / "
-           "reload inside histories, plateau targets returning Python ints, `tempering` (real ladders), samplers built from arrays the caller overwrites afterwards.",
+           "reload inside histories, plateau targets returning Python ints, `tempering` (real ladders), samplers built from arrays the caller overwrites afterwards. `one-element-density` (a one-parameter log-density written with array arithmetic, returning shape (1,)).",
     "C04": "Added later: one-sided and infinite limits (Bounds and Gibbs parameters), limits held in int8..int64 / float16 / float32 (full-range boxes whose width does not "
            "fit the type), points given by their own value (identity inside is exact), very wide boxes, limits arrays overwritten by the caller after construction.",
     "C05": "Added later: `history` (long-lived objects, memoising / identity forward models, shared parameter buffers, data arrays re-used by the caller), data and "
            "uncertainties as 8..64-bit integers, float16 / float32, Python ints; scales 1e-170 .. 1e170; a single datum as a plain number with a scalar-valued model.",
     "C06": "Added later: `int-forms` (hyper-parameters and theta as integer / narrow-float arrays, wide intervals), Gaussian widths 1e-170 .. 1e170, a caller that adds to the "
-           "returned gradient in place, bare priors inside Posterior with call histories and a never-used twin, a t-test of coordinate independence of the draws.",
+           "returned gradient in place, bare priors inside Posterior with call histories and a never-used twin, a t-test of coordinate independence of the draws. Hyper-parameters as numpy scalars / lists of them, variable indices as index arrays, lists of numpy integers or a single numpy integer.",
     "C07": "Added later: mass histories (advance, estimate_mass diagonal / full for d >= 1, reload), integer / int8 / strided / numpy-scalar masses, gradient-free energy "
            "cases, finite-difference estimates up to 1e8 widths from zero and on the upper wall, mass arrays overwritten by the caller.",
     "C08": "Added later: `ladder` (6..16 chains, unsorted temperatures, conservation of points), chains started up to 3000 sd apart (certain / impossible exchanges).",
     "C09": "Added later: max_attempts, numeric forms of what the user hands over (numpy-scalar temperature / mass, float32 widths / start, strided matrix mass, models returning "
-           "float32), long histories (save at 480-700 steps, continuation by 340-420), arrays overwritten by the caller after construction.",
+           "float32), long histories (save at 480-700 steps, continuation by 340-420), arrays overwritten by the caller after construction. `forms-late` (numeric forms in every case, saved after the first adaptation, continued through the next); tuning attributes (inv_temp, temperature, alpha, steps, ES.epsilon, params.sigma) compared besides the read-outs; temperatures 1.9 / 6.3 (1/(1/T) != T).",
     "C10": "Added later: `forms` (integer / unsigned / float32 coordinates on lattices to spacing 20000), kernels re-used after an earlier data set of another size or dimension, "
            "user-specified bounds on components, log-alpha to 30 with a log1p reference.",
-    "C11": "Added later: leave-one-out predictions after set_hyperparameters (fresh arrays and the in-place scan idiom), integer hyper-parameter arrays, mean-function round-off.",
+    "C11": "Added later: leave-one-out predictions after set_hyperparameters (fresh arrays and the in-place scan idiom), integer hyper-parameter arrays, mean-function round-off. theta also as int16 / int8 / float32 / float16 arrays.",
     "C12": "Added later: integer evaluation points, whole-number samples as int8..int64 / uint8..uint32 arrays evaluated at points of the same type, cross-validation on a "
            "sub-set (max_cv_samples below the sample size).",
     "C13": "Added later: float16, uint8 / uint32 / uint64 / int8 / int16 / bool, 64-bit integers over the whole range (exact widths in Python integers) and ones a float64 "
-           "cannot hold (`rounded_check`: the reported pair is the rounding of an exactly-shortest window); float widths judged in double precision.",
-    "C14": "Added later: a second phase (advance / step / exchange / reload, then read out again), get_interval on empty selections and with fractions 1e-4 .. 0.9999.",
+           "cannot hold (`rounded_check`: the reported pair is the rounding of an exactly-shortest window); float widths judged in double precision. Byte-swapped arrays (one case in three).",
+    "C14": "Added later: a second phase (advance / step / exchange / reload, then read out again), get_interval on empty selections and with fractions 1e-4 .. 0.9999. A top fraction within rounding of a whole number of rows (0.9 of 1000) is that number of rows.",
     "C15": "Added later: `counts-long`, `tempering-counts`, `timed-tempering`; the timed sub-checks meter a virtual clock per step (costs 2e-5 .. 1e3 s with drift, clock epoch "
-           "1000 s or 1.79e9 s, ticking or flowing, budgets 0 and 1e-9 s .. 10 h; overshoot at most one second's worth of steps or one step); m as numpy integer scalars.",
+           "1000 s or 1.79e9 s, ticking or flowing, budgets 0 and 1e-9 s .. 10 h; overshoot at most one second's worth of steps or one step); m as numpy integer scalars. Groups of steps / cycles must be sized for the budget that is left (overshoot: one step or cycle plus the rate uncertainty of the clock).",
     "C16": "Added later: `history` (hyper-parameters switched between derivative calls, in-place) and `forms` (integer / unsigned / float32 data and queries on lattices).",
     "C17": "Added later: `history` and `forms` (narrow-typed data / errors / matrix / positions, data units); precise data (errors to 1e-6 of the signal), conditioning taken "
            "from the better of the two standard forms of the posterior, the evidence judged with cond(A K A^T + S).",
     "C18": "Added later: closed-form reference gradients (UCB / MaxVar / EI), z down to -1e9 with non-zero derivatives of mean and variance (tolerance 1e-11, no z^2 term), "
-           "histories with kernel instances (SE, RQ, SE + White, SE + Hetero), rejected-then-proper adds, integer bounds, data arrays re-used by the caller.",
+           "histories with kernel instances (SE, RQ, SE + White, SE + Hetero), rejected-then-proper adds (missing error, NaN value), integer bounds, data arrays re-used by the caller.",
     "C19": "Added later: mirrored samples, cdf far outside / between / at the tails, fractions 1e-4 .. 0.997 and fractions holding 1..40 sample points (mass tolerance "
-           "min(5e-4, 2 % of f)).",
+           "min(5e-4, 2 % of f)). Sharp-edged and broad skewed families (half-normal, gamma k in [1, 3], log-normal s to 0.9), cross-validated KDE bandwidth.",
     "C20": "Added later: conditioning points given as integers, table units 1e-14 .. 1e12, grid scales to 1e10, count tables and whole-number grids in integer arrays.",
 }
